@@ -310,6 +310,9 @@ class Engine:
         self.nd = []
         self.drop_impls = False
         self.immutable = {}
+        self.fallback = None
+        self.native_eq = {}
+        self.native_lt = {}
         self.solver = z3.Solver()
         self.functions_executed = set()
         self.callees_modelled = set()
@@ -753,6 +756,11 @@ class Engine:
                 if isinstance(v, Agg):
                     i = concrete(comp[1])
                     v = v.f[i]
+                elif isinstance(v, Native) and v.kind in ("lvec", "strvec"):
+                    i = concrete(comp[1])
+                    if not 0 <= i < len(v.data):
+                        raise Unsupported(f"index {i} out of the modelled vector {v}")
+                    v = v.data[i]
                 else:
                     raise Unsupported(f"index into {v}")
             else:
@@ -835,6 +843,16 @@ class Engine:
             return
         if isinstance(comp, tuple) and comp[0] == "idx":
             comp = concrete(comp[1])
+            if isinstance(cur, Native) and cur.kind in ("lvec", "strvec"):
+                d = list(cur.data)
+                if not rest:
+                    d[comp] = val
+                else:
+                    holder = {"v": clone(d[comp])}
+                    self.store_into(ctx, holder, "v", rest, val)
+                    d[comp] = holder["v"]
+                container[key] = Native(cur.kind, tuple(d))
+                return
         if isinstance(cur, Enum) and "up" in cur.v:
             if not rest:
                 cur.v["up"].f[comp] = val
@@ -974,11 +992,15 @@ class Engine:
             if self.int_mode and INT_W[m.group(2)] == 64 and m.group(2) not in SIGNED:
                 return z3.IntVal(int(m.group(1)))
             return bv(int(m.group(1)), INT_W[m.group(2)])
-        m = re.match(r"^(?:(?:std|core)::)?(\w+)::(MAX|MIN)$", c)
+        m = re.match(r"^(?:(?:std|core)::)?(\w+)::(MAX|MIN|BITS)$", c) or re.match(r"^(?:std|core)::num::<impl (\w+)>::(MAX|MIN|BITS)$", c)
         if m and m.group(1) in INT_W:
             w = INT_W[m.group(1)]
+            if m.group(2) == "BITS":
+                return bv(w, 32)
             if m.group(1) in SIGNED:
                 return bv((1 << (w - 1)) - 1 if m.group(2) == "MAX" else (1 << (w - 1)), w)
+            if self.int_mode and w == 64:
+                return z3.IntVal((1 << w) - 1 if m.group(2) == "MAX" else 0)
             return bv((1 << w) - 1 if m.group(2) == "MAX" else 0, w)
         if c == "true":
             return z3.BoolVal(True)
@@ -1034,6 +1056,8 @@ class Engine:
         # enum unit variants / fn items
         sp = strip_generics(c)
         segs = sp.split("::")
+        if segs[-1] in ("Less", "Equal", "Greater") and (len(segs) == 1 or segs[-2] == "Ordering"):
+            return Enum({"Less": 0xFFFFFFFFFFFFFFFF, "Equal": 0, "Greater": 1}[segs[-1]], {}, "CmpOrdering")
         if len(segs) >= 2 and segs[-2] in self.prog.enums and segs[-1] in self.prog.enums[segs[-2]]:
             return Enum(self.prog.enums[segs[-2]].index(segs[-1]), {}, segs[-2])
         return FnItem(c)
@@ -1430,6 +1454,15 @@ class Engine:
         if any(p.search(norm) for p in self.opaque):
             self.callees_opaque.add(norm)
             return self.finish_call(ctx, f, Opaque(norm), dest, ret_bb)
+        # 5. general std models (fallback: only for callees without a specific model and without a body)
+        if self.fallback is None:
+            from . import models_std
+            self.fallback = models_std.FALLBACK
+        for pat, h in self.fallback.items():
+            if re.search(pat, norm):
+                self.callees_modelled.add(norm + " [std fallback]")
+                r = h(self, ctx, f, path, args, dty)
+                return self.finish_call(ctx, f, r, dest, ret_bb)
         raise Unsupported(f"no model and no body for callee `{path}` (in {f.body.name}); args={args}")
 
     def call_value(self, ctx, f, callee, args, dest, ret_bb, dty, self_arg=None):
@@ -1458,10 +1491,14 @@ class Engine:
                 self.push_frame(ctx, b, args, (dest, ret_bb))
                 return None
             norm = norm_callee(callee.path)
-            for pat, h in self.models.items():
-                if not pat.startswith("__") and re.search(pat, norm):
-                    r = h(self, ctx, f, callee.path, args, dty)
-                    return self.finish_call(ctx, f, r, dest, ret_bb)
+            if self.fallback is None:
+                from . import models_std
+                self.fallback = models_std.FALLBACK
+            for table in (self.models, self.fallback):
+                for pat, h in table.items():
+                    if not pat.startswith("__") and re.search(pat, norm):
+                        r = h(self, ctx, f, callee.path, args, dty)
+                        return self.finish_call(ctx, f, r, dest, ret_bb)
         raise Unsupported(f"indirect call of {callee}")
 
     def finish_call(self, ctx, f, r, dest, ret_bb):
